@@ -29,6 +29,10 @@ fn stmt_for(kind: &str) -> &'static str {
         // a table made of split patterns only: every line is a row, with or without the separator in it
         "split" => "SELECT input FROM sp",
         "count" => "SELECT COUNT(*) FROM raw",
+        // an aggregate that shows the order in which the lines arrived
+        "agg_order" => "SELECT ARRAY_AGG(x) AS a FROM raw",
+        // DISTINCT over the whole line, on a table whose columns do not capture the whole line
+        "distinct_input" => "SELECT DISTINCT input FROM sp",
         "join" => "SELECT j.y FROM raw INNER JOIN j::'/simfs/joined.log' ON raw.x = j.y",
         "outer" => "SELECT raw.x FROM raw OUTER JOIN j::'/simfs/joined.log' ON raw.x = j.y",
         _ => "SELECT input FROM raw",
@@ -202,7 +206,7 @@ impl Property for C12 {
     fn generate(&self, rng: &mut Rng, thorough: bool) -> J {
         let _thorough = thorough;
         let variant = *rng.pick(&["transparent", "transparent", "concat", "badbyte", "badbyte", "eio"]);
-        let kind = *rng.pick(&["input", "input", "count", "join", "outer", "split"]);
+        let kind = *rng.pick(&["input", "input", "input", "count", "count", "join", "join", "outer", "outer", "split", "split", "agg_order", "distinct_input"]);
         let n_files = if kind == "join" { 1 } else { rng.range(1, 4) as usize };
         // size regime: a file with thousands of lines (beyond any per-batch constant such as 1024 / 4096)
         let many_lines = (kind == "input" || kind == "count") && rng.chance(if _thorough { 20 } else { 4 }, 1000);
@@ -233,7 +237,10 @@ impl Property for C12 {
             let n_lines = if rng.chance(1, 8) { 0 } else { rng.range(1, 10) as usize };
             let mut lines: Vec<Vec<u8>> = Vec::new();
             for _ in 0..n_lines {
-                let mut line = if kind == "join" || (kind == "outer" && rng.chance(1, 2)) {
+                let mut line = if kind == "distinct_input" && rng.chance(2, 3) {
+                    // equal in the two extracted fields, different beyond them; repeated lines
+                    rng.pick(&[&b"p;;;q;;;1"[..], b"p;;;q;;;2", b"p;;;q", b"p;;;q;;;1", b"x", b"x;;;y", b"x;;;y;;;", b""]).to_vec()
+                } else if kind == "join" || (kind == "outer" && rng.chance(1, 2)) {
                     // few distinct values so that multiplicities exceed one
                     rng.pick(&[&b"a"[..], b"b", b"cc", b"", "é".as_bytes(), b"a b"]).to_vec()
                 } else if huge_case && rng.chance(1, 4) {
@@ -248,7 +255,7 @@ impl Property for C12 {
                     l.retain(|b| *b != b'\r');
                     l
                 };
-                if kind != "join" && kind != "outer" && rng.chance(1, 6) {
+                if kind != "join" && kind != "outer" && kind != "agg_order" && kind != "distinct_input" && rng.chance(1, 6) {
                     line.push(b'\r'); // CRLF line end
                 }
                 lines.push(line);
@@ -330,7 +337,9 @@ impl Property for C12 {
         let mut out = Outcome::default();
         let kind = jstr(case, "kind");
         // the outer kind is about presentation of the main lines only: no bad-byte / EIO sweeps there
-        let variant = if kind == "outer" && jstr(case, "variant") != "concat" && jstr(case, "variant") != "badbyte" { "transparent".to_owned() } else { jstr(case, "variant") };
+        let variant = if (kind == "agg_order" || kind == "distinct_input") && jstr(case, "variant") != "concat" {
+            "transparent".to_owned()
+        } else if kind == "outer" && jstr(case, "variant") != "concat" && jstr(case, "variant") != "badbyte" { "transparent".to_owned() } else { jstr(case, "variant") };
         let outer_joined = jbytes(case, "outer_joined");
         OUTER_JOINED.with(|j| *j.borrow_mut() = outer_joined.clone());
         PIPE_INPUTS.with(|p| p.set(jbool(case, "pipe")));
@@ -391,6 +400,14 @@ impl Property for C12 {
                 }
             }
             e
+        } else if kind == "distinct_input" {
+            let mut e: Vec<Vec<u8>> = Vec::new();
+            for l in &m {
+                if !e.contains(l) {
+                    e.push(l.clone());
+                }
+            }
+            e
         } else {
             m.clone()
         };
@@ -410,7 +427,12 @@ impl Property for C12 {
                 out.violate("c12.error", format!("{}: run reported {:?} on well-formed input", what, status_label(&r.status)), features.clone());
                 return;
             }
-            if kind == "count" {
+            if kind == "agg_order" {
+                let want = format!("a: {{{}}}", m.iter().map(|l| format!("'{}'", String::from_utf8_lossy(l))).collect::<Vec<_>>().join(", "));
+                if !(r.recs == vec![want.clone()] || (n == 0 && r.recs.is_empty())) {
+                    out.violate("c12.wrong_lines", format!("{}: ARRAY_AGG shows {} but the lines in input order are {}", what, show(&r.recs), want), features.clone());
+                }
+            } else if kind == "count" {
                 let expect = if n == 0 { None } else { Some(n as u64) };
                 if r.count != expect && !(n == 0 && r.recs.is_empty()) {
                     out.violate("c12.wrong_lines", format!("{}: COUNT(*) printed {:?}, the files hold {} lines", what, r.recs, n), features.clone());
